@@ -25,8 +25,46 @@ import (
 	"strconv"
 	"strings"
 
+	"regexp/syntax"
+
 	"gopkg.in/yaml.v3"
 )
+
+// lineAnchored: the text, read as a regular expression, can only match at the start of a line or of the text: every
+// top-level alternative begins with ^ or \A (computed from regexp/syntax's parse tree; a text that does not parse is
+// not anchored).
+func lineAnchored(s string) bool {
+	re, err := syntax.Parse(s, syntax.Perl)
+	if err != nil {
+		return false
+	}
+	var anch func(r *syntax.Regexp) bool
+	anch = func(r *syntax.Regexp) bool {
+		switch r.Op {
+		case syntax.OpBeginLine, syntax.OpBeginText:
+			return true
+		case syntax.OpCapture:
+			return anch(r.Sub[0])
+		case syntax.OpConcat:
+			for _, x := range r.Sub {
+				if x.Op == syntax.OpEmptyMatch {
+					continue
+				}
+				return anch(x)
+			}
+			return false
+		case syntax.OpAlternate:
+			for _, x := range r.Sub {
+				if !anch(x) {
+					return false
+				}
+			}
+			return len(r.Sub) > 0
+		}
+		return false
+	}
+	return anch(re)
+}
 
 type AssetSpec struct {
 	Glob   string
@@ -93,6 +131,7 @@ func (d *assetDoc) node(n *yaml.Node) int {
 		default:
 			d.fact("(= (sp_ykind %d) 1)", id)
 			d.fact("(= (sp_ystr %d) %s)", id, d.lit(n.Value))
+			d.fact("(= (sp_yanch %d) %v)", id, lineAnchored(n.Value))
 		}
 	case yaml.SequenceNode:
 		d.fact("(= (sp_ykind %d) 5)", id)
